@@ -146,6 +146,10 @@ var c09Stmts = []string{
 	"java.util.concurrent.Callable<Object> cc = new java.util.concurrent.Callable<>() {\n    public Object call() {\n        return new Object() {\n            int deep = new int[1].length;\n        };\n    }\n};",
 	"consume(new Object() {\n    void a() {\n        consume(new Object());\n    }\n    void b() {\n    }\n});",
 	"new java.util.HashMap<String, java.util.List<Integer>>() {{\n    put(\"a\", null);\n}};",
+	// method references whose qualifier is a type that is not an expression (array, parameterised), naming a method or new
+	"java.util.function.Function<int[], int[]> cloner = int[]::clone;",
+	"java.util.function.ToIntFunction<java.util.ArrayList<String>> sizer = java.util.ArrayList<String>::size;",
+	"java.util.function.IntFunction<int[]> maker = int[]::new;\njava.util.function.Supplier<java.util.ArrayList<String>> fresh = java.util.ArrayList<String>::new;",
 	// long non-ASCII text in front of a dot: in a literal argument, and as an identifier heading a call chain
 	"consume(\"Пользователь с таким именем не найден. Повторите попытку\");",
 	"Object построительОтчётаПоВсемЗаказамЗаГод = null;\nпостроительОтчётаПоВсемЗаказамЗаГод.toString().trim();",
